@@ -41,6 +41,10 @@ func (chkC02) CheckState(w *World, s *Snap, st State) []Viol {
 			continue
 		}
 		rate := i64(p.Rate)
+		// the agreed price is the lease's price (= the accepted bid's price), whatever rate the payment record carries
+		if !p.Rate.IsEqual(l.Price) {
+			out = append(out, Viol{"C02.agreed-price", "payment-rate-ne-lease-price", fmt.Sprintf("payment %s runs at %s but the lease was agreed at %s", shortKey(w, k), p.Rate, l.Price)})
+		}
 		if p.State == etypes.PaymentOpen && acc.State == etypes.AccountOpen {
 			want := rate * (acc.SettledAt - l.CreatedAt)
 			if payTotal(p) != want {
